@@ -476,6 +476,37 @@ func validateSignatures(ms *MidState, txn types.Transaction) error {
 			var esig types.Signature
 			copy(epk[:], pk.Key)
 			copy(esig[:], sig.Signature)
+			// The sighash functions index into the transaction with the
+			// covered fields they use; an out-of-range index can never be
+			// signed for, and must be rejected rather than cause a panic.
+			cf := sig.CoveredFields
+			covered := []struct {
+				indices []uint64
+				n       int
+			}{{cf.Signatures, len(txn.Signatures)}}
+			if !cf.WholeTransaction {
+				covered = append(covered, []struct {
+					indices []uint64
+					n       int
+				}{
+					{cf.SiacoinInputs, len(txn.SiacoinInputs)},
+					{cf.SiacoinOutputs, len(txn.SiacoinOutputs)},
+					{cf.FileContracts, len(txn.FileContracts)},
+					{cf.FileContractRevisions, len(txn.FileContractRevisions)},
+					{cf.StorageProofs, len(txn.StorageProofs)},
+					{cf.SiafundInputs, len(txn.SiafundInputs)},
+					{cf.SiafundOutputs, len(txn.SiafundOutputs)},
+					{cf.MinerFees, len(txn.MinerFees)},
+					{cf.ArbitraryData, len(txn.ArbitraryData)},
+				}...)
+			}
+			for _, c := range covered {
+				for _, idx := range c.indices {
+					if idx >= uint64(c.n) {
+						return fmt.Errorf("signature %v covers a field that is not present in the transaction", i)
+					}
+				}
+			}
 			var sigHash types.Hash256
 			if sig.CoveredFields.WholeTransaction {
 				sigHash = ms.base.WholeSigHash(txn, sig.ParentID, sig.PublicKeyIndex, sig.Timelock, sig.CoveredFields.Signatures)
